@@ -372,4 +372,5 @@ def tokenize_string(text, prev=None):
             CC.BracketEnd,
             CC.Comment):
         result += next(text)
-    return result
+    if result:
+        return result
